@@ -34,6 +34,16 @@ CLAIMS['C10'] = dict(
     note=("Rule predicates are my transcription of the ExPASy table; proteome sequences contain no internal X; mass "
           "thresholds are offset by 5e-5 Da so ties cannot occur; exhaustive within the stated string lengths only."),
     technique="TLA+ definitional spec evaluated exhaustively by TLC over bounded strings; implementation outputs validated against it", ref='6 C10')
+CLAIMS['C12'] = dict(
+    text=("spec/IndexDir.tla models the index directory (metadata.json versions and pool registry, pool files, reference "
+          "files, annotation symlink) with one action per generateIndex/updateIndex/load invocation, including the crash "
+          "paths of the real code. TLC explores the complete reachable state graph over 3 parameter sets and checks LoadRight, "
+          "LoadGuarded, Faithful, Registry, UpdateKeeps, BadVersionRejected. TLC-generated histories (with the result and "
+          "directory state the spec predicts after every step) are replayed into the real commands and compared step by step: "
+          "exit status class, registered pools, content of each pool file, loaded pool/genome/proteome/annotation/coding data."),
+    note=("Three fixed parameter sets on one small synthetic reference; histories of length <= 7 sampled by TLC simulation "
+          "(quick) plus all histories of length 4 over 2 parameter sets (thorough); version tampering edits metadata.json."),
+    technique="TLA+ state machine + TLC; spec-generated histories replayed into the implementation", ref='6 C12')
 PENDING = "not claimed in this revision: check not built yet (work in progress, see DESIGN.md section 12)"
 NA = {}
 
